@@ -139,6 +139,40 @@ def check(rep, ctx):
             diffs = [x for x in cmp_rw(W.nr(pf["r"]), W.nw(pf["w"]), f["name"]) if "conversion" in x or "emits a" in x or "prefix" in x or "payload" in x]
             rep.check(R_E, not diffs, construct=f"{key}.{f['name']}", stmt=f"{pf['r_codec']['fn']} / {pf['w_codec']['fn']}",
                       message="; ".join(diffs), **W.codec_loc(pf.get("r_codec")))
+    # what a reader can return for a null marker, the sibling writer must take: decided live for representative non-nullable arrays
+    R_N = rep.rule("C10-e-null-reencodable", "where the reader of a non-nullable array field returns None for the null marker, the sibling writer "
+                   "writes None back (the decoded entity can be encoded again)", floor=3)
+    from ..plans import export_desc
+    from ..values import UnionV
+    from ..interp_base import Raised as _Raised, Limit as _Limit
+    P_ = ctx.plans
+    for key in ("kio.schema.metadata.v5.response:MetadataResponse", "kio.schema.metadata.v12.response:MetadataResponse",
+                "kio.schema.metadata.v12.response:MetadataResponsePartition"):
+        if key not in S.classes:
+            raise AnalysisError(f"anchor vanished: {key}")
+        pl = P_.plan(key)
+        if pl.error:
+            raise AnalysisError(f"plan of {key} not understood: {pl.error}")
+        for rec in pl.fields:
+            rd = rec.get("r_desc") or {}
+            fld = rec.get("field")
+            if rd.get("k") != "array" or rd.get("null") is None or (rd.get("null") or {}).get("then") != "none" or fld is None:
+                continue
+            if any(getattr(a, "name", None) == "NoneType" for a in I.alts(fld.type)):
+                continue  # nullable by declaration
+            try:
+                wd = export_desc(P_.D.writer_desc(rec["w_codec"], UnionV((fld.type, None))))
+            except (_Raised, _Limit) as e:
+                raise AnalysisError(f"writer of {key}.{rec['name']} not understood with a None value: {e}")
+            if wd.get("k") == "opaque":
+                rep.limit(f"writer of {key}.{rec['name']} with a None value: {wd.get('reason')}")
+                continue
+            nl = wd.get("null")
+            ok = isinstance(nl, dict) and bool(nl.get("wire_bytes") or "wire" in nl) and not str(nl.get("then", "")).startswith("raise")
+            rep.check(R_N, ok, construct=f"{key}.{rec['name']}", stmt=f"reader null -> None; writer null arm: {nl}",
+                      message=f"the reader returns None when the array length is the null marker, but the writer writes nothing "
+                              f"for None: a corrupted (or merely null) array decodes into an entity that cannot be encoded again",
+                      **W.floc(S.classes[key], next(f for f in S.classes[key]["fields"] if f["name"] == rec["name"])))
     rep.sample({"rule": "C10-a-exceptions", "seen": sorted({e for (e, s) in seen})})
     W.finish(rep)
     rep.extra.update(max_nesting_depth=max((d for d in depth.values() if d), default=0),
